@@ -768,7 +768,7 @@ mutant("C14-M36", "C14", "R15f", "initial value written back to the adjustable w
 
 # ---- rename twins: a local variable renamed consistently inside one function (regex on word boundaries) must not raise anything
 def rename_twin(id, prop, file, func, old, new):
-    twin(id, prop, "local `%s` renamed to `%s` in %s" % (old, new, func), file, func, r"\b%s\b" % old, new, regex=True)
+    twin(id, prop, "local `%s` renamed to `%s` in %s" % (old, new, func), file, func, old, new, rename_local=True)
 
 
 rename_twin("C12-T8", "C12", PR, "Covout.get_outcome", "cov", "cvec")
@@ -825,3 +825,4 @@ twin("C19-T7", "C19", "max seeded with minus infinity", FP, "vector_max", "retur
 twin("C19-T8", "C19", "min result in a local first", FP, "vector_min", "return reduce(np.minimum, args)", "out = reduce(np.minimum, args)\n    return out")
 mutant("C18-M32", "C18", "R18f", "cascade constituents accepted when they are any framework name (seeded C18d)", FW, "ProjectFramework._validate_cascades", "component.strip() in self.comps.index or component.strip() in self.characs.index", "component.strip() in self")
 mutant("C01-M30", "C01", "R01g", "timed compartment lookup collapses the time axis (seeded C20d)", M, "TimedCompartment.__getitem__", "return self._vals[:, ti].sum(axis=0)", "return self._vals[:, ti].sum()")
+mutant("C20-M25", "C20", "R01g", "timed compartment lookup collapses the time axis (seeded C20d), seen from C20", M, "TimedCompartment.__getitem__", "return self._vals[:, ti].sum(axis=0)", "return self._vals[:, ti].sum()")
